@@ -95,6 +95,18 @@ def attr_ok(got, want):
     return tuple(got) == tuple(want)
 
 
+def _follow_delegation(c, f):
+    """a builder that interns nothing itself but calls a sibling Context method (`zero_extend` -> `extend(e, by, false)`) is analysed with that sibling inlined"""
+    if any(n.get("k") == "mcall" and callee(n) == ADD_EXPR for n in walk(f["body"])):
+        return f
+    sib = {callee(n) for n in walk(f["body"]) if n.get("k") in ("mcall", "call") and (callee(n) or "").startswith(CTX + "::") and callee(n) not in (ADD_EXPR, f.get("path"))}
+    raw = (c.raw_fns.get(f.get("path")) or [None])[0]
+    if not sib or raw is None:
+        return f
+    from . import norm as norm_
+    return norm_.prepare(raw, c, force=tuple(sib))
+
+
 def check_t2(ctx, t0, rule="T2"):
     """returns {builder: row}; records contract violations under `rule`"""
     c = ctx.facts.lib("patronus")
@@ -105,7 +117,7 @@ def check_t2(ctx, t0, rule="T2"):
         if not fl:
             ctx.inst(rule, "builder:%s:missing" % name, False, None, "builder Context::%s not found (renamed or removed): readers and rewriters that rely on it cannot be checked" % name, nontrivial=False)
             continue
-        f = fl[0]
+        f = _follow_delegation(c, fl[0])
         defs = local_defs(f)
         pidx = _ParamIndex()
         k = 0
@@ -162,6 +174,14 @@ def check_t2(ctx, t0, rule="T2"):
                         okd = pol == vn.startswith("BV")
                     if [m[0] for m in cms] == ["get_type", "is_array"] and cb.get("k") == "local" and cb["id"] in pidx:
                         okd = pol == vn.startswith("Array")
+                    if c_.get("k") == "armpat" and pol:
+                        # `match x.get_type(ctx) { Type::BV(_) => .., Type::Array(_) => .. }`
+                        sb, sms = chain(resolve(c_["scrut"]))
+                        pp = c_["pat"]
+                        while pp.get("k") in ("pref", "pderef"):
+                            pp = pp["pat"]
+                        if [m[0] for m in sms] == ["get_type"] and sb.get("k") == "local" and sb["id"] in pidx and pp.get("k") == "pvariant":
+                            okd = (pp["path"].endswith("Type::BV") and vn.startswith("BV")) or (pp["path"].endswith("Type::Array") and vn.startswith("Array"))
                 if not okd:
                     problems.append("%s is not selected by the operand's type (is_bit_vector)" % vn)
         if sorted(seen_variants) != sorted(variants):
@@ -174,7 +194,7 @@ def check_t2(ctx, t0, rule="T2"):
         fl = c.fns.get(CTX + "::" + name)
         if not fl:
             continue
-        f = fl[0]
+        f = _follow_delegation(c, fl[0])
         pidx = {}
         k = 0
         for p in f["params"]:
@@ -209,11 +229,11 @@ def check_t2(ctx, t0, rule="T2"):
                             got.add("hi")
             return len(cj) == 2 and got == {"lo", "hi"}
         # the operand itself is returned exactly under the trivial-case test, the node is built exactly otherwise
-        leaves = [n for n in ix.nodes if n.get("k") == "local" and is_local(n, rev.get(0)) and ((ix.parent.get(id(n)) or {}).get("k") in ("return", "block", "blockexpr", "if"))]
+        leaves = [n for n in ix.nodes if n.get("k") == "local" and is_local(n, rev.get(0)) and ((ix.parent.get(id(n)) or {}).get("k") in ("return", "ireturn", "block", "blockexpr", "if"))]
         returns_operand = []
         for n in leaves:
             par = ix.parent.get(id(n))
-            is_result = par.get("k") == "return" or (par.get("k") == "block" and par.get("tail") is n)
+            is_result = par.get("k") in ("return", "ireturn") or (par.get("k") == "block" and par.get("tail") is n)
             if is_result:
                 returns_operand.append(n)
         adds = [n for n in ix.nodes if n.get("k") == "mcall" and callee(n) == ADD_EXPR]
